@@ -40,6 +40,17 @@ const (
 	HmacSha384Hash HashAlg = 6
 )
 
+// Valid reports whether alg is one of the hash types FDO defines, i.e. whether
+// HashFunc and String may be called on it. Values decoded from a peer must be
+// checked before use, because HashFunc and String panic on unknown types.
+func (alg HashAlg) Valid() bool {
+	switch alg {
+	case Sha256Hash, Sha384Hash, HmacSha256Hash, HmacSha384Hash:
+		return true
+	}
+	return false
+}
+
 func (alg HashAlg) String() string {
 	switch alg {
 	case Sha256Hash:
